@@ -217,6 +217,18 @@ def subchecks(tier, seed):
                     if t not in seen:
                         seen.add(t)
                         yield t
+        # a class that holds a share of about 1e-4: whatever is done to a nearly empty class must not depend on
+        # where it (or any other class) sits in the class order
+        for its in (1, 2, 5):
+            for K in (2, 3):
+                for p in SP.deviations(0, fixed=dict(base_fixed, iterations=its, K=K, start='near_empty'),
+                                       core=('model',)):
+                    if p['aligner'] != 'none' or p['single']:
+                        continue
+                    t = SP.tup(p) + (seed, thorough)
+                    if t not in seen:
+                        seen.add(t)
+                        yield t
         # sizes at the edge of the ranges: one-dimensional Gaussian observations, many frequency bins
         for its in (1, 2):
             for K in (2, 3):
